@@ -148,6 +148,40 @@ def hostile_cases(rnd):
             for t in texts[:: 2 if vt in ("BINARY", "BOOLEAN", "X-FOO", "URI", "TEXT") else 1]:
                 cases.append(("type-confusion", f"BEGIN:VTODO\r\n{pn}{par}:{t}\r\n{pn}{par};TZID=Europe/Berlin:{t}\r\nEND:VTODO\r\n"))
                 cases.append(("type-confusion-ev", f"BEGIN:VEVENT\r\n{pn}{par}:{t}\r\nEND:VEVENT\r\n"))
+    # magnitudes: numbers and identifiers far outside what datetime/timedelta/zone lookups can hold
+    # (C04-F6..F8: OverflowError from timedelta, from start + duration; RecursionError from the tzdata lookup)
+    big = ["P99999999999999W", "-P99999999999999D", "P999999999D", "-P999999999D", "PT99999999999999999999S", "P2147483648D",
+           "PT9223372036854775808S", "P" + "9" * 400 + "D"]
+    for d in big:
+        for pn in ("DURATION", "TRIGGER", "X-D;VALUE=DURATION", "REFRESH-INTERVAL"):
+            cases.append(("magnitude-duration", f"BEGIN:VTODO\r\n{pn}:{d}\r\nEND:VTODO\r\n"))
+            cases.append(("magnitude-duration-ev", f"BEGIN:VEVENT\r\nDTSTART:20200101T000000Z\r\n{pn}:{d}\r\nEND:VEVENT\r\n"))
+        for st in ("20200101T000000Z", "20200101T000000", "00010101T000000Z", "99991231T235959Z"):
+            cases.append(("magnitude-period", f"BEGIN:VTODO\r\nRDATE;VALUE=PERIOD:{st}/{d}\r\nFREEBUSY:{st}/{d}\r\nEND:VTODO\r\n"))
+            cases.append(("magnitude-period-tz", f"BEGIN:VEVENT\r\nRDATE;VALUE=PERIOD;TZID=Pacific/Kiritimati:{st.rstrip('Z')}/{d}\r\nEND:VEVENT\r\n"))
+    for tzid in ["a/" * 3000 + "b", "a/" * 3000, "a" * 100000, "../" * 500 + "etc/passwd", "a." * 2000 + "b", "Europe/" * 600 + "Berlin", "a/" * 200 + "b",
+                 "\x00", "Europe/Berlin\x00", "CON", "a" * 255, "a" * 256]:
+        cases.append(("magnitude-tzid", f"BEGIN:VTODO\r\nDUE;TZID={tzid}:20200101T000000\r\nEND:VTODO\r\n"))
+        cases.append(("magnitude-tzid-ev", f"BEGIN:VEVENT\r\nDTSTART;TZID={tzid}:20200101T000000\r\nRDATE;TZID={tzid}:20200101T000000\r\nEND:VEVENT\r\n"))
+    for num in ["9" * 5000, "-" + "9" * 5000, "1e999", "-1e999", "nan", "inf", "1" + "0" * 400 + ".5", "0." + "0" * 400 + "1", "1_0", " 1", "+1", "٣"]:
+        cases.append(("magnitude-number", f"BEGIN:VTODO\r\nPRIORITY:{num}\r\nPERCENT-COMPLETE:{num}\r\nEND:VTODO\r\n"))
+        cases.append(("magnitude-number-ev", f"BEGIN:VEVENT\r\nSEQUENCE:{num}\r\nGEO:{num};{num}\r\nX-F;VALUE=FLOAT:{num}\r\nX-I;VALUE=INTEGER:{num}\r\n"
+                      f"RRULE:FREQ=DAILY;COUNT={num};INTERVAL={num};BYMONTHDAY={num};BYDAY={num}MO\r\nREPEAT:{num}\r\nEND:VEVENT\r\n"))
+        cases.append(("magnitude-rrule", f"BEGIN:VTODO\r\nRRULE:FREQ=DAILY;COUNT={num}\r\nEND:VTODO\r\n"))
+        cases.append(("magnitude-geo", f"BEGIN:VTODO\r\nGEO:{num};{num}\r\nEND:VTODO\r\n"))
+        cases.append(("magnitude-float", f"BEGIN:VTODO\r\nX-F;VALUE=FLOAT:{num}\r\nEND:VTODO\r\n"))
+    for stamp in ["00000000", "00000101", "99999999", "20240230", "20241301", "20240101T240000", "20240101T236060", "20240101T235960Z", "00000000T000000",
+                  "99991231T235959", "2024010", "202401011", "20240101T1", "20240101T", "T000000", "-0240101", "2024-01-01", "٢٠٢٤٠١٠١"]:
+        for pn in ("DTSTART", "DTSTART;VALUE=DATE", "DUE;TZID=Pacific/Kiritimati", "RDATE", "EXDATE;TZID=America/Adak", "COMPLETED", "RECURRENCE-ID"):
+            cases.append(("magnitude-stamp", f"BEGIN:VTODO\r\n{pn}:{stamp}\r\nEND:VTODO\r\n"))
+        cases.append(("magnitude-stamp-ev", f"BEGIN:VEVENT\r\nDTSTART:{stamp}\r\nDTEND;TZID=Asia/Tokyo:{stamp}\r\nRRULE:FREQ=DAILY;UNTIL={stamp}\r\nEND:VEVENT\r\n"))
+    for off in ["+9999", "-9999", "+999999", "+2400", "-2359", "+235959", "+0060", "+000060", "+00", "+0", "+٠١٠٠", "+01:00"]:
+        cases.append(("magnitude-offset", f"BEGIN:STANDARD\r\nTZOFFSETFROM:{off}\r\nTZOFFSETTO:{off}\r\nEND:STANDARD\r\n"))
+    cases.append(("long-line", "BEGIN:VEVENT\r\nSUMMARY:" + "x" * 300000 + "\r\nEND:VEVENT\r\n"))
+    cases.append(("long-fold", "BEGIN:VEVENT\r\nSUMMARY:" + "\r\n ".join("x" for _ in range(20000)) + "\r\nEND:VEVENT\r\n"))
+    cases.append(("many-params", "BEGIN:VEVENT\r\nSUMMARY" + "".join(f";X-P{i}=v" for i in range(3000)) + ":x\r\nEND:VEVENT\r\n"))
+    cases.append(("many-quotes", "BEGIN:VEVENT\r\nSUMMARY;X=" + '"' * 5001 + ":x\r\nEND:VEVENT\r\n"))
+    cases.append(("many-categories", "BEGIN:VEVENT\r\nCATEGORIES:" + "," * 20000 + "\r\nEND:VEVENT\r\n"))
     cases.append(("bom-mid", "BEGIN:VEVENT\r\n﻿SUMMARY:x\r\nEND:VEVENT\r\n"))
     cases.append(("nul", "BEGIN:VEVENT\r\nSUMMARY:a\x00b\r\nX\x00Y:1\r\nEND:VEVENT\r\n"))
     cases.append(("only-folds", "\r\n \r\n \r\n\t\r\n"))
@@ -268,6 +302,8 @@ def run(ctx: Ctx):
         inputs = [(os.path.basename(f), d) for f, d in zip(fixtures, raw) if len(d) < (6000 if ctx.quick else 40000)]
         inputs += [(tag, t.encode("utf-8")) for tag, t in hostile_cases(rnd)][:: (3 if ctx.quick else 1)]
         for tag, data in inputs:
+            if len(data) > 40000 or any(len(ln) > 600 for ln in data.split(b"\n")):
+                continue            # TLC classifies every line with the parts() mirror: keep lines short
             for multiple in (True, False):
                 del sink[:]
                 r = pc.real_parse(data, multiple)
